@@ -8,7 +8,7 @@ id=$1; suf=$2
 wt=/tmp/wt/$id-$suf; out=/tmp/seedout/$id-$suf
 mkdir -p /tmp/wt /tmp/seedout "$out"
 [ -d "$wt" ] || git -C /repo worktree add -q --detach "$wt" HEAD
-avoid=$(python3 - "$id" <<'PY2'
+avoid=$([ -n "${NOAVOID:-}" ] && exit 0; python3 - "$id" <<'PY2'
 import sys,glob,re,os
 id=sys.argv[1]; out=set()
 for d in sorted(glob.glob(f'/verif/seeded/{id}-*')):
@@ -39,6 +39,9 @@ prop=[json.loads(l) for l in open('/verif/properties.jsonl') if l.strip() and js
 for k in ('added_in_round','source'): prop.pop(k,None)
 brief=open('/verif/tools/SEED_BRIEF.md').read().split('-----------------------------------------------------------------------------',1)[1]
 avoid='''$avoid'''
+if not avoid.strip():
+    a=brief.index('3. Earlier injections'); b=brief.index('4. It must compile')
+    brief=brief[:a]+"3. Choose whichever mechanism behind the property you find most natural to break — central functions are fine.\n\n"+brief[b:]
 brief=brief.replace('{ID}',id).replace('{WT}',wt).replace('{OUT}',out).replace('{PROPERTY}',json.dumps(prop,indent=1,ensure_ascii=False)).replace('{AVOID}',avoid or '(none)')
 open(out+'/PROMPT.md','w').write(brief.strip()+'\n')
 PY
